@@ -18,7 +18,7 @@ func init() {
 		SetProcs(c.Procs)
 		st := memstore.New(c.Series)
 		var eng Engine
-		if c.Mode == "dist" {
+		if c.Mode == "dist" || c.Mode == "dist-timesplit" {
 			eng = NewDistributed(c, Partition(c))
 		} else {
 			eng = NewEngine(c.Lookback, c.Opt, true)
@@ -37,7 +37,7 @@ func init() {
 		soloErr := make([]error, len(qs))
 		for i, a := range qs {
 			var fresh Engine
-			if c.Mode == "dist" {
+			if c.Mode == "dist" || c.Mode == "dist-timesplit" {
 				fresh = NewDistributed(c, Partition(c))
 			} else {
 				fresh = NewEngine(c.Lookback, c.Opt, true)
